@@ -54,7 +54,8 @@ static int approved(const char *n)
 }
 enum { ST_FAILED, ST_PASSED, ST_NOTRUN_FAIL, ST_NOTRUN_PASS, ST_NOTRUN_NATFAIL, NSTATES };
 static const char *const st_name[] = { "failed", "passed", "not-run+injected-failure", "not-run+pass", "not-run+real-self-tests-fail-once" };
-static uint8_t *kat_sha, *kat_aes;        /* writable known-answer data of the real self-tests (a flipped bit makes them fail by themselves) */
+static uint8_t *kat[4];         /* writable known-answer data of the real self-tests, one per group: SHA-512 message, GCM tag, CBC IV, XTS key (a flipped bit makes that group fail by itself) */
+static const char *const kat_sym[4] = { "msg_sha512", "aes_gcm_256_tag", "aes_cbc_128_iv", "aes_xts_128_key1" };
 static char rbuf[300];
 
 static void one(entry_t *e, int state, uint64_t c)
@@ -79,15 +80,15 @@ static void one(entry_t *e, int state, uint64_t c)
         case ST_NOTRUN_PASS: asm_set_self_tests_status(2); wrap_mode = rng_below(&r, 4) ? W_PASS_FAST : W_REAL; break;
         case ST_NOTRUN_NATFAIL: asm_set_self_tests_status(2); wrap_mode = W_REAL; break;
         }
-        uint8_t *flipped = NULL;
-        if (state == ST_NOTRUN_NATFAIL) { flipped = rng_below(&r, 2) ? kat_sha : kat_aes; *flipped ^= 0x01; }
+        unsigned flipped = 0;
+        if (state == ST_NOTRUN_NATFAIL) { flipped = 1 + rng_below(&r, 15); for (int k = 0; k < 4; k++) if (flipped >> k & 1) *kat[k] ^= 0x01; }
         disp_rearm_all();
         snprintf(rbuf, sizeof rbuf, "{\"engine\":\"fips\",\"entry\":\"%s\",\"state\":\"%s\",\"seed\":%llu,\"case\":%llu}", e->name, st_name[state], (unsigned long long) g_seed, (unsigned long long) c);
         snprintf(cur_replay, sizeof cur_replay, "%s", rbuf);
         LABEL("%s state=%s", e->name, st_name[state]);
         int rc = call(e, v);
         cur_label[0] = 0;
-        if (flipped) *flipped ^= 0x01;          /* the fault was transient */
+        for (int k = 0; k < 4; k++) if (flipped >> k & 1) *kat[k] ^= 0x01;            /* the fault was transient */
         int resolved = any_slot_resolved();
         out_count("fips_calls", 1);
         feat(mix64(0xf19, mix64((uint64_t) (e - entries), (uint64_t) state * 4 + (uint64_t) wrap_mode)));
@@ -127,7 +128,7 @@ static void one(entry_t *e, int state, uint64_t c)
                         out_count("fips_calls", 1);
                         if (rc2 != ISAL_CRYPTO_ERR_SELF_TEST || n_aes != 1 || n_sha != 1) {
                                 snprintf(key, sizeof key, "fips-failed-verdict-not-sticky %s", e->name);
-                                out_viol("C13", key, rbuf, "the real self-tests failed on the first call (one flipped bit in their %s known-answer data, restored afterwards); the next call of %s returned %d and the self-tests were entered %d/%d times in total", flipped == kat_sha ? "SHA-512" : "AES-GCM", e->name, rc2, n_aes, n_sha);
+                                out_viol("C13", key, rbuf, "the real self-tests failed on the first call (one flipped bit in the known-answer data of group mask %x [1=SHA-512 2=GCM 4=CBC 8=XTS], restored afterwards); the next call of %s returned %d and the self-tests were entered %d/%d times in total", flipped, e->name, rc2, n_aes, n_sha);
                         }
                         for (int i = 0; i < e->nargs; i++) if (bufs[i] && memcmp(bufs[i], copies[i], e->a[i].size)) { snprintf(key, sizeof key, "fips-output-touched %s %s arg%d", e->name, st_name[state], i); out_viol("C13", key, rbuf, "%s changed argument %d after failed self-tests", e->name, i); }
                 }
@@ -174,8 +175,7 @@ int main(int argc, char **argv)
 #ifndef VERIF_FIPS
         out_err("fips engine must be linked against the FIPS_MODE build");
 #endif
-        kat_sha = sym_addr("msg_sha512"); kat_aes = sym_addr("aes_gcm_256_tag");
-        if (!kat_sha || !kat_aes) out_err("known-answer data of the self-tests not found (msg_sha512 / aes_gcm_256_tag)");
+        for (int k = 0; k < 4; k++) { kat[k] = sym_addr(kat_sym[k]); if (!kat[k]) out_err("known-answer data %s of the self-tests not found", kat_sym[k]); }
         for (uint64_t c = g_from; c < g_from + g_count; c++) {
                 for (int i = 0; i < NENT; i++) {
                         for (int st = 0; st < NSTATES; st++) { if (st == ST_NOTRUN_NATFAIL && ((c + (uint64_t) i) % 6)) continue; one(&entries[i], st, c); }
